@@ -39,6 +39,10 @@ struct CommitBatch {
 	count: u32, // Number of entries in the batch
 	applied: AtomicBool,
 	complete_tx: Mutex<Option<oneshot::Sender<Result<()>>>>,
+	// Error of a batch whose WAL write or apply failed. It is delivered when the
+	// batch leaves the queue, not before: the committer keeps its flow-control
+	// permit until then, which is what bounds the queue.
+	failure: Mutex<Option<Error>>,
 }
 
 impl CommitBatch {
@@ -49,6 +53,7 @@ impl CommitBatch {
 			count,
 			applied: AtomicBool::new(false),
 			complete_tx: Mutex::new(Some(tx)),
+			failure: Mutex::new(None),
 		});
 		(commit, rx)
 	}
@@ -67,6 +72,14 @@ impl CommitBatch {
 
 	fn is_applied(&self) -> bool {
 		self.applied.load(Ordering::Acquire)
+	}
+
+	fn fail(&self, e: Error) {
+		*self.failure.lock() = Some(e);
+	}
+
+	fn take_failure(&self) -> Option<Error> {
+		self.failure.lock().take()
 	}
 
 	fn complete(&self, result: Result<()>) {
@@ -346,14 +359,17 @@ impl CommitPipeline {
 					let stamp = seq_num + count - 1;
 					self.oracle.rollback(batch.entries.iter().map(|e| e.key.as_slice()), stamp);
 					// The batch is in `pending` and was never marked applied.
-					// Order matters: complete with Err FIRST, then mark_applied,
-					// so a concurrent publish() can't dequeue and call
-					// complete(Ok) before our Err is set.
-					commit_batch.complete(Err(e.clone()));
+					// Order matters: record the error FIRST, then mark_applied,
+					// so a concurrent publish() can't dequeue the batch and
+					// complete it with Ok before the error is set.
+					commit_batch.fail(e.clone());
 					commit_batch.mark_applied();
 					// Release write_mutex before draining the queue.
 					drop(_guard);
 					self.publish();
+					// Stay (and keep the flow-control permit) until the batch has
+					// left the queue: it may sit behind an earlier, unapplied one.
+					let _ = complete_rx.await;
 					return Err(e);
 				}
 			}
@@ -394,11 +410,11 @@ impl CommitPipeline {
 			let stamp = allocated_seq + count - 1;
 			self.oracle.rollback(batch.entries.iter().map(|e| e.key.as_slice()), stamp);
 
-			// Order matters: complete with Err FIRST, then mark_applied below.
+			// Order matters: record the error FIRST, then mark_applied below.
 			// Otherwise a concurrent publish() could dequeue the (already
-			// applied) batch and call complete(Ok) before our Err lands.
+			// applied) batch and complete it with Ok before the error lands.
 			let err = Error::CommitFail(e.to_string());
-			commit_batch.complete(Err(err.clone()));
+			commit_batch.fail(err.clone());
 			Some(err)
 		} else {
 			None
@@ -414,6 +430,11 @@ impl CommitPipeline {
 		crate::verif::point("commit.after_publish");
 
 		if let Some(err) = apply_err {
+			// Stay (and keep the flow-control permit) until the failed batch has left
+			// the queue. Returning at once released the permit while the batch could
+			// still sit behind an earlier, unapplied one: enough failing commits then
+			// overflowed the queue.
+			let _ = complete_rx.await;
 			return Err(err);
 		}
 
@@ -465,8 +486,12 @@ impl CommitPipeline {
 
 					#[cfg(feature = "verif")]
 					crate::verif::point("publish.after_visible");
-					// Complete this batch
-					batch.complete(Ok(()));
+					// Complete this batch (with its own error if its WAL write or
+					// apply had failed)
+					match batch.take_failure() {
+						Some(e) => batch.complete(Err(e)),
+						None => batch.complete(Ok(())),
+					}
 				}
 				None => {
 					// No more applied batches, done
